@@ -55,7 +55,59 @@ def bor(a, b):
         return a
     if a == ONEBIT or b == ONEBIT:
         return ONEBIT
-    return a ^ b ^ band(a, b)
+    # native OR atom (flattened, canonical as a set): keeps 'x == 0 iff every OR-ed input is 0' visible
+    return frozenset([("|", _orparts(a) | _orparts(b))])
+
+
+def _orparts(x):
+    if len(x) == 1:
+        (a,) = tuple(x)
+        if a[0] == "|":
+            return a[1]
+    return frozenset([x])
+
+
+def evaluate(bit, assign, memo=None):
+    """concrete value (0/1) of a term under an assignment {(sym, i): 0/1} (unassigned variables are 0)"""
+    if bit is TOP:
+        return None
+    if memo is None:
+        memo = {}
+    r = 0
+    for a in bit:
+        if a == ONE:
+            r ^= 1
+        elif a[0] == "v":
+            r ^= assign.get((a[1], a[2]), 0)
+        elif a[0] == "&":
+            v = 1
+            for part in a[1]:
+                k = ("&", part)
+                x = memo.get(k)
+                if x is None:
+                    x = evaluate(part, assign, memo)
+                    memo[k] = x
+                if x is None:
+                    return None
+                if not x:
+                    v = 0
+                    break
+            r ^= v
+        elif a[0] == "|":
+            v = 0
+            for part in a[1]:
+                k = ("|", part)
+                x = memo.get(k)
+                if x is None:
+                    x = evaluate(part, assign, memo)
+                    memo[k] = x
+                if x is None:
+                    return None
+                if x:
+                    v = 1
+                    break
+            r ^= v
+    return r
 
 
 def bnot(a):
@@ -238,7 +290,7 @@ def describe(bit, limit=6):
         elif a[0] == "v":
             parts.append("%s[%d]" % (a[1], a[2]))
         else:
-            parts.append("(" + " & ".join(describe(x, 3) for x in sorted(a[1], key=repr)) + ")")
+            parts.append("(" + (" & " if a[0] == "&" else " | ").join(describe(x, 3) for x in sorted(a[1], key=repr)[:4]) + (" ..." if len(a[1]) > 4 else "") + ")")
     s = " ^ ".join(parts)
     if len(bit) > limit:
         s += " ^ ...(%d)" % len(bit)
